@@ -21,4 +21,6 @@ pub mod rr;
 pub mod server;
 pub mod thread;
 mod util;
+#[cfg(feature = "verif_hooks")]
+pub mod verif;
 pub mod zone_file;
